@@ -338,33 +338,35 @@ Proof.
     exists b. split; [exact Hb|]. split; [exact Hne|]. rewrite <- available_in_spec. congruence.
 Qed.
 
-(* ---- the disqualification cache -------------------------------------------------------------------- *)
+(* ---- the disqualification cache (one entry per grouping since fix 3541d7b) -------------------------- *)
 Definition run_calls (calls : list arch_map) : dq_cache :=
   fold_left (fun c aa => fst (dq_cache_get c aa)) calls [].
 
-Lemma find_key_In k c d : find_key k c = Some d -> In (k, d) c.
+Lemma find_entry_In k g c d : find_entry k g c = Some d ->
+  exists g', In (k, g', d) c /\ same_grouping g' g = true.
 Proof.
-  induction c as [|[k' d'] t IH]; simpl; [discriminate|].
-  destruct (list_eqb Nat.eqb k k') eqn:E.
-  - intros H. inversion H; subst. apply (list_eqb_spec Nat.eqb Nat.eqb_eq) in E. subst. left. reflexivity.
-  - intros H. right. apply IH. exact H.
+  induction c as [|[[k' g'] d'] t IH]; simpl; [discriminate|].
+  destruct (list_eqb Nat.eqb k k' && same_grouping g' g) eqn:E.
+  - intros H. inversion H; subst. apply andb_true_iff in E. destruct E as [E1 E2].
+    apply (list_eqb_spec Nat.eqb Nat.eqb_eq) in E1. subst. exists g'. split; [left; reflexivity | exact E2].
+  - intros H. destruct (IH H) as [g0 [I S]]. exists g0. split; [right; exact I | exact S].
 Qed.
 
-(* every stored set is disqualifyDifference of SOME earlier call with that key *)
-Lemma run_calls_inv calls : forall k d, In (k, d) (run_calls calls) ->
-  exists aa, In aa calls /\ dq_cache_key aa = k /\ d = dq_objs aa.
+(* every stored entry is (key, grouping, disqualifyDifference) of SOME earlier call *)
+Lemma run_calls_inv calls : forall k g d, In (k, g, d) (run_calls calls) ->
+  exists aa, In aa calls /\ dq_cache_key aa = k /\ g = grouping_of aa /\ d = dq_objs aa.
 Proof.
   unfold run_calls.
-  assert (G : forall c0, (forall k d, In (k, d) c0 -> exists aa, In aa calls /\ dq_cache_key aa = k /\ d = dq_objs aa) ->
+  assert (G : forall c0, (forall k g d, In (k, g, d) c0 -> exists aa, In aa calls /\ dq_cache_key aa = k /\ g = grouping_of aa /\ d = dq_objs aa) ->
           forall l, incl l calls ->
-          forall k d, In (k, d) (fold_left (fun c aa => fst (dq_cache_get c aa)) l c0) ->
-          exists aa, In aa calls /\ dq_cache_key aa = k /\ d = dq_objs aa).
-  { intros c0 H0 l. revert c0 H0. induction l as [|aa t IH]; simpl; intros c0 H0 I k d H; [apply (H0 k d H)|].
+          forall k g d, In (k, g, d) (fold_left (fun c aa => fst (dq_cache_get c aa)) l c0) ->
+          exists aa, In aa calls /\ dq_cache_key aa = k /\ g = grouping_of aa /\ d = dq_objs aa).
+  { intros c0 H0 l. revert c0 H0. induction l as [|aa t IH]; simpl; intros c0 H0 I k g d H; [apply (H0 k g d H)|].
     apply (IH (fst (dq_cache_get c0 aa))); [|intros x Hx; apply I; right; exact Hx | exact H].
-    intros k' d' H'. unfold dq_cache_get in H'. destruct (find_key (dq_cache_key aa) c0) eqn:F; simpl in H'.
-    - apply (H0 k' d' H').
-    - destruct H' as [E|H']; [|apply (H0 k' d' H')]. inversion E; subst. exists aa. split; [apply I; left; reflexivity | auto]. }
-  intros k d H. apply (G [] (fun _ _ F => match F with end) calls (incl_refl _) k d H).
+    intros k' g' d' H'. unfold dq_cache_get in H'. destruct (find_entry (dq_cache_key aa) (grouping_of aa) c0) eqn:F; simpl in H'.
+    - apply (H0 k' g' d' H').
+    - destruct H' as [E|H']; [|apply (H0 k' g' d' H')]. inversion E; subst. exists aa. split; [apply I; left; reflexivity | auto]. }
+  intros k g d H. apply (G [] (fun _ _ _ F => match F with end) calls (incl_refl _) k g d H).
 Qed.
 
 (* the members of the difference do not depend on the order in which the map is listed *)
@@ -379,15 +381,67 @@ Proof.
   - exists U. split; [eapply Permutation_in; eauto|]. split; [exact Hlt|]. exists b, V. split; [eapply Permutation_in; eauto | exact R].
 Qed.
 
-(* a hit on an entry stored by a call with the same grouping hands out what a
-   fresh disqualifyDifference would compute; a miss computes exactly that *)
-Theorem cache_hit_same_grouping hist aa :
-  (forall aa', In aa' hist -> dq_cache_key aa' = dq_cache_key aa -> Permutation aa' aa) ->
+(* a Go map: distinct keys; index objects: the identity determines the object *)
+Definition go_map (aa : arch_map) : Prop := NoDup (List.map fst aa).
+Definition indexes_of (l : list arch_map) : list nindex := List.concat (List.map (fun aa => List.concat (List.map snd aa)) l).
+Definition coherent (l : list arch_map) : Prop :=
+  forall x y, In x (indexes_of l) -> In y (indexes_of l) -> ni_id x = ni_id y -> x = y.
+
+Lemma ids_eq_objects l : forall l', (forall x y, In x l -> In y l' -> ni_id x = ni_id y -> x = y) ->
+  List.map ni_id l = List.map ni_id l' -> l = l'.
+Proof.
+  induction l as [|x l IH]; intros [|y l'] H E; simpl in E; try discriminate; [reflexivity|].
+  inversion E as [[E1 E2]]. f_equal.
+  - apply H; [left; reflexivity | left; reflexivity | exact E1].
+  - apply IH; [|exact E2]. intros a b Ha Hb. apply H; right; assumption.
+Qed.
+
+Lemma alookup_grouping_of k aa l : alookup k (grouping_of aa) = Some l ->
+  exists ixs, In (k, ixs) aa /\ l = List.map ni_id ixs.
+Proof.
+  unfold grouping_of. induction aa as [|[k' ixs'] aa IH]; simpl; [discriminate|].
+  destruct (String.eqb k' k) eqn:E.
+  - intros H. inversion H; subst. apply String.eqb_eq in E. subst. exists ixs'. split; [left; reflexivity | reflexivity].
+  - intros H. destruct (IH H) as [ixs [I L]]. exists ixs. split; [right; exact I | exact L].
+Qed.
+
+Lemma In_indexes_of aa l k ixs x : In aa l -> In (k, ixs) aa -> In x ixs -> In x (indexes_of l).
+Proof.
+  intros Ha He Hx. unfold indexes_of. apply in_concat. exists (List.concat (List.map snd aa)). split.
+  - apply in_map_iff. exists aa. split; [reflexivity | exact Ha].
+  - apply in_concat. exists ixs. split; [|exact Hx]. apply in_map_iff. exists (k, ixs). split; [reflexivity | exact He].
+Qed.
+
+(* equal groupings (as the code compares them) of coherent objects: the same Go map *)
+Lemma same_grouping_perm l aa' aa : In aa' l -> In aa l -> coherent l -> go_map aa' -> go_map aa ->
+  same_grouping (grouping_of aa') (grouping_of aa) = true -> Permutation aa' aa.
+Proof.
+  intros Ha' Ha C N' N S. unfold same_grouping in S. apply andb_true_iff in S. destruct S as [L S].
+  apply Nat.eqb_eq in L. unfold grouping_of in L. rewrite !map_length in L.
+  apply NoDup_Permutation_bis; [eapply NoDup_map_inv; exact N' | lia|].
+  intros [k ixs'] He. rewrite forallb_forall in S.
+  specialize (S (k, List.map ni_id ixs')). cbn [fst snd] in S.
+  assert (Hin : In (k, List.map ni_id ixs') (grouping_of aa')).
+  { unfold grouping_of. apply in_map_iff. exists (k, ixs'). split; [reflexivity | exact He]. }
+  specialize (S Hin). destruct (alookup k (grouping_of aa)) as [l0|] eqn:A; [|discriminate].
+  apply (list_eqb_spec Nat.eqb Nat.eqb_eq) in S. destruct (alookup_grouping_of k aa l0 A) as [ixs [I ->]].
+  assert (E : ixs' = ixs).
+  { apply ids_eq_objects; [|exact S]. intros x y Hx Hy. apply C; [exact (In_indexes_of aa' l k ixs' x Ha' He Hx) | exact (In_indexes_of aa l k ixs y Ha I Hy)]. }
+  subst. exact I.
+Qed.
+
+(* AFTER ANY HISTORY a call is handed what a fresh disqualifyDifference of ITS OWN map
+   computes: a hit is an entry stored by a call with an equal grouping, a miss computes it *)
+Theorem cache_own_grouping hist aa :
+  go_map aa -> Forall go_map hist -> coherent (aa :: hist) ->
   forall o, In o (snd (dq_cache_get (run_calls hist) aa)) <-> In o (dq_objs aa).
 Proof.
-  intros G o. unfold dq_cache_get. destruct (find_key (dq_cache_key aa) (run_calls hist)) as [d|] eqn:F; simpl; [|reflexivity].
-  apply find_key_In in F. apply run_calls_inv in F. destruct F as [aa' [H [K ->]]].
-  pose proof (G aa' H K) as P. split; [apply dq_objs_perm; exact P | apply dq_objs_perm; apply Permutation_sym; exact P].
+  intros N NH C o. unfold dq_cache_get.
+  destruct (find_entry (dq_cache_key aa) (grouping_of aa) (run_calls hist)) as [d|] eqn:F; simpl; [|reflexivity].
+  apply find_entry_In in F. destruct F as [g' [I S]]. apply run_calls_inv in I. destruct I as [aa' [H [_ [-> ->]]]].
+  rewrite Forall_forall in NH.
+  pose proof (same_grouping_perm (aa :: hist) aa' aa (or_intror H) (or_introl eq_refl) C (NH aa' H) N S) as P.
+  split; [apply dq_objs_perm; exact P | apply dq_objs_perm; apply Permutation_sym; exact P].
 Qed.
 
 (* ---- messages --------------------------------------------------------------------------------------------- *)
